@@ -113,6 +113,10 @@ def _func_loop(part, aioftp, flavour, base, base_path, user, strings):
                 problem = "real path lexically outside the base directory"
             elif real != base_path / str(virt.relative_to("/")) and not reset:
                 problem = "real path is not base / virtual"
+            elif not reset and tuple(real.parts[len(base_path.parts):]) != tuple(virt.parts[1:]):
+                # (one location, one virtual name: `C:x` joined to a drive base, or `a\\b` on a Windows base, address
+                # a location whose normalised virtual path is another one - which permissions are looked up for)
+                problem = "virtual path is not the normalised name of the location addressed"
             if problem:
                 part.violation({"kind": problem, "flavour": flavour},
                                {"base": base, "cwd": cwd, "path": s, "real": str(real), "virtual": vs, "resolver": want},
@@ -397,6 +401,78 @@ def glob_case(item):
     return part
 
 
+HOMES = ["/", "/d", "/d/sub", "//d", "/d/", "/d//sub", "/d/./sub", "/d/../e", "/d/sub/..", "/../d", "/d/sub/../../e/.", "///"]
+
+
+def _fold(path):
+    out = []
+    for seg in path.split("/"):
+        if seg in ("", "."):
+            continue
+        if seg == "..":
+            if out:
+                out.pop()
+        else:
+            out.append(seg)
+    return "/" + "/".join(out)
+
+
+def home_case(item):
+    """every home_path setting: right after login the working directory the server reports (and resolves relative
+    paths against, and looks permissions up for) is the normalised absolute form of the home directory"""
+    home, = item
+    from vf.rig import Rig
+    part = report.Partial()
+    problems = []
+
+    def users(a, base):
+        return [a.User(base_path=base, home_path=home,
+                       permissions=[a.Permission("/e", writable=False)])]
+    rig = Rig(tree={"d": {"sub": {"x": b"1"}}, "e": {"y": b"2"}}, users=users)
+    want = _fold(home)
+    try:
+        rig.ev(0, "@connect")
+        rig.ev(0, "USER anonymous")
+
+        def pwd():
+            r = rig.ev(0, "PWD")
+            text = " ".join(r[0][1]) if r else ""
+            a_ = text.find('"')
+            b_ = text.rfind('"')
+            return text[a_ + 1:b_] if 0 <= a_ < b_ else None
+        got = pwd()
+        if got != want:
+            problems.append({"kind": "working-directory-not-normalised", "home": home, "pwd": got, "want": want})
+        r = rig.ev(0, "MKD probe")
+        codes = [c for c, _ in (r or [])]
+        snap = rig.snapshot()
+        where = (want.rstrip("/") + "/probe")
+        allowed = not want.startswith("/e")
+        if allowed and where not in snap:
+            problems.append({"kind": "relative-path-resolved-elsewhere", "home": home, "expected": where,
+                             "tree": sorted(k for k in snap if k.endswith("probe")), "codes": codes})
+        if not allowed and (codes != ["550"] or any(k.endswith("probe") for k in snap)):
+            problems.append({"kind": "permission-looked-up-for-another-path", "home": home, "codes": codes})
+        rig.ev(0, "CDUP")
+        got2 = pwd()
+        if got2 != _fold(want + "/.."):
+            problems.append({"kind": "working-directory-not-normalised", "home": home, "after": "CDUP", "pwd": got2,
+                             "want": _fold(want + "/..")})
+        part.evaluations += 1
+        part.traces += 1
+        part.transitions += rig.world.net.n_events
+        k = report.fp(["home", home])
+        part.states.add(k)
+        if home != want:
+            part.nontrivial.add(k)
+        part.outcomes[report.fp([got, codes])] += 1
+        for p_ in problems[:1]:
+            part.violation({"kind": p_["kind"], "home_path": True}, {"problem": p_}, replay={"home": list(item)})
+    finally:
+        rig.close()
+    return part
+
+
 def late_case(item):
     """the working directory changes between a transfer verb and the arrival of its data connection: the location
     actually addressed (and every backend call) must be the one the verb named when it arrived"""
@@ -469,6 +545,7 @@ def run(tier, seed, t0):
             v["replay"] = {"pipelined_cwd": v["replay"]}
     parts += pparts
     parts += report.pmap(glob_case, [(b, wh) for b in ("pathio", "async") for wh in ("name", "base")])
+    parts += report.pmap(home_case, [(h,) for h in HOMES])
     parts += report.pmap(pipelined_relogin_work, [({"first": first, "cmd": cmd}, 1 if tier == "quick" else 2)
                                                   for first in ("alice", "bob") for cmd in PIPE_BEFORE_USER])
     part = report.merge_all(parts)
@@ -476,6 +553,7 @@ def run(tier, seed, t0):
                            "path_strings": nstrings, "cwds": len(cwds()), "bases": BASES},
               "wire": {"segments": WSEGS, "verbs": WVERBS, "cwd_histories": WCWD_HISTS,
                        "max_segments": "2 (3 for CWD/STOR/RETR)" if tier == "quick" else 3},
+              "home_paths": HOMES,
               "shell_pattern_names": "file-system backends: names `[s]ecret`, `p?b`, `*` and a base directory `ftp[1]` next to `ftp1`",
               "pipelined_relogin": "a command and USER <other user> in one segment, path checks suspended (<= d completion-order "
                                    "deviations): no backend call and no change in the other user's base directory",
@@ -497,6 +575,10 @@ def run(tier, seed, t0):
 def replay(path):
     data = json.loads(open(path).read())
     rp = data["replay"]
+    if "home" in rp:
+        part = home_case(tuple(rp["home"]))
+        print(json.dumps([v["detail"] for v in part.violations], indent=1, default=repr))
+        return 1 if part.violations else 0
     if "glob" in rp:
         part = glob_case(tuple(rp["glob"]))
         print(json.dumps([v["detail"] for v in part.violations], indent=1, default=repr))
